@@ -7,7 +7,7 @@ Streams of C14.
      retry   1 = try_duration > 0: a failed request goes back to selecting
      expiry  0 failures not counted (fail_timeout 0) | 1 counted, never expiring within the run | 2 counted, expiring at once
              | 3 counted, the event `w` waits for the oldest outstanding failure to expire
-     events  comma list of  t:x   (thread t runs to its next blocking point; x = preferred backend / outcome code)
+     events  comma list of  t:x | w | c:t (the client of request t goes away)   where  t:x   (thread t runs to its next blocking point; x = preferred backend / outcome code)
      out   = snapshots joined by ";" :  label|conns|fails|inflight   (lists joined by ",")
              label = sel:h none fwd:h lost:h fin:h:o noop final      o = ok err cancel big panic
 -/
@@ -23,6 +23,7 @@ def parseExpiry : String → Option Expiry
 
 def parseEvent (s : String) : Option (Nat × Nat) :=
   match s.splitOn ":" with
+  | ["c", t] => do pure (cancelMark + (← t.toNat?), 0)
   | [t, x] => do pure (← t.toNat?, ← x.toNat?)
   | ["w"] => some (waitMark, 0)
   | _ => none
@@ -63,7 +64,7 @@ def showSnap (s : Snap) : String :=
 def schedModel (f : List String) : String :=
   match parseCase f with
   | none => "bad-case"
-  | some c => ";".intercalate ((replay c.cfg c.ex (State.init c.cfg c.nThreads) [] c.events).map showSnap)
+  | some c => ";".intercalate ((replay c.cfg c.ex (State.init c.cfg c.nThreads) [] [] c.events).map showSnap)
 
 def parseIntD (s : String) : Option Int :=
   if s.startsWith "-" then (s.drop 1).toNat?.map fun n => -(n : Int) else s.toNat?.map fun n => (n : Int)
@@ -104,7 +105,7 @@ def schedJudge (f : List String) (out : String) : String :=
     -- a run that got stuck has no final snapshot; judge what was observed up to there first
     let v := verdict c.cfg c.ex snaps
     if v != "ok" then v
-    else if stuck then "bad:stuck:a request neither reached its next Select nor ended (" ++ out.takeRight 30 ++ ")"
+    else if stuck then "bad:stuck:a request neither reached its next Select nor ended (" ++ (out.drop (out.length - 30)).toString ++ ")"
     else "ok"
   | _, _ => "bad:unparsable:" ++ out
 
